@@ -384,6 +384,11 @@ impl Model {
 
 #[cfg(vibrato_verif)]
 impl Model {
+    /// Verification hook: number of rows of the raw model's bigram weight table.
+    pub fn verif_bigram_weight_rows(&self) -> usize {
+        self.data.raw_model.bigram_weight_indices().len()
+    }
+
     /// Verification hook: a freshly merged model (never the cached one) as
     /// `(weight, left_id, right_id)` per label and `(right_conn_id, left_conn_id, weight)` per
     /// matrix entry.
